@@ -1,0 +1,14 @@
+//go:build verif
+
+package generator
+
+// VerifYield, when set by a verification harness, is called at the
+// scheduling points of asyncPostProcess.OnFinished so that a test can
+// perturb the interleaving.  It must not change the behaviour of the code.
+var VerifYield func(point string, job int)
+
+func verifYield(point string, job int) {
+	if f := VerifYield; f != nil {
+		f(point, job)
+	}
+}
